@@ -72,10 +72,17 @@ def rel_alphabet(eng, ent, attr, cap=16):
     st = eng.committed
     A = sorted(st.of_entity(ent))[:2]
     B = sorted(st.of_entity(a.target))[:2]
+    # prefer a primary object that already has a link, so that removals are meaningful
+    linked = [o for o in sorted(st.of_entity(ent)) if st.objs[o].vals.get(attr)]
+    if linked and linked[0] not in A[:1]: A = [linked[0]] + [x for x in A if x != linked[0]][:1]
+    if linked:
+        cur = st.objs[linked[0]].vals.get(attr)
+        cur = sorted(cur) if isinstance(cur, set) else [cur]
+        B = cur[:1] + [x for x in sorted(st.of_entity(a.target)) if x not in cur[:1]][:1]
     ops = [{'op': 'flush'}]
-    def side(objs, at, others):
+    def side(objs, at, others, full=True):
         out = []
-        for o in objs:
+        for o in objs[:1]:
             if at.kind == 'set':
                 for x in others:
                     if x == o: continue
@@ -94,13 +101,12 @@ def rel_alphabet(eng, ent, attr, cap=16):
                 out.append({'op': 'read', 'oid': o, 'attr': at.name})
         return out
     ops += side(A, a, B)
-    if (r.owner, r.name) != (a.owner, a.name): ops += side(B, r, A)
+    if (r.owner, r.name) != (a.owner, a.name):
+        rs = side(B, r, A)
+        # the reverse side contributes its modifications and two reads
+        keep = [o for o in rs if o['op'] in hops.MOD_OPS][:4] + [o for o in rs if o['op'] not in hops.MOD_OPS][:2]
+        ops += keep
     # keep modifications, trim reads deterministically if the alphabet is too large
-    if len(ops) > cap:
-        mods = [o for o in ops if o['op'] in hops.MOD_OPS or o['op'] == 'flush']
-        reads = [o for o in ops if o not in mods]
-        step = max(1, len(reads) // max(1, cap - len(mods)))
-        ops = mods[:cap] + reads[::step][:max(0, cap - len(mods))]
     return ops
 
 
@@ -144,7 +150,7 @@ def run_small_scope(ctx, cfg):
     """cfg: {'templates': [names], 'length': {'quick': 3, 'thorough': 4}, 'monitors': [...], 'budget': {'quick': n, 'thorough': n}}"""
     from vlib import hfindings
     from vlib.common import fp
-    L = cfg['length'][ctx.tier]
+    plan = cfg.get('plan', {'quick': [(2, True), (3, False)], 'thorough': [(3, True), (4, False)]})[ctx.tier]
     monitors = set(cfg['monitors'])
     budget = cfg['budget'][ctx.tier]
     workdir = ctx.tmp()
@@ -173,16 +179,20 @@ def run_small_scope(ctx, cfg):
             if len(alphabet) < 3: continue
             base_rows = dump_sql(eng.file)
             base_model = eng.committed.copy()
-            seqs = itertools.product(range(len(alphabet)), repeat=L)
-            total = len(alphabet) ** L
-            exhaustive = total <= per_job
-            if not exhaustive:
-                # deterministic sample of the sequence space when it does not fit the budget
-                r2 = random.Random('small-sample/%s/%s/%d' % (t['name'], f, ctx.seed))
-                seqs = (tuple(r2.randrange(len(alphabet)) for _ in range(L)) for _ in range(per_job))
-            ctx.count('smallscope.focuses'); ctx.count('smallscope.exhaustive_focuses' if exhaustive else 'smallscope.sampled_focuses')
+            def sequences():
+                for L, want_all in plan:
+                    total = len(alphabet) ** L
+                    if want_all or total <= per_job:
+                        ctx.count('smallscope.exhaustive_length_%d' % L)
+                        for seq in itertools.product(range(len(alphabet)), repeat=L): yield seq
+                    else:
+                        # deterministic sample of the sequence space when it does not fit the budget
+                        ctx.count('smallscope.sampled_length_%d' % L)
+                        r2 = random.Random('small-sample/%s/%s/%d/%d' % (t['name'], f, ctx.seed, L))
+                        for _ in range(per_job): yield tuple(r2.randrange(len(alphabet)) for _ in range(L))
+            ctx.count('smallscope.focuses'); ctx.count('smallscope.alphabet_size', len(alphabet))
             reported = set()
-            for seq in seqs:
+            for seq in sequences():
                 ops = [alphabet[i] for i in seq] + [{'op': 'commit'}, {'op': 'end'}]
                 n0 = len(eng.reports)
                 eng.diverged = None
